@@ -59,6 +59,15 @@ STR_NOTE = ("Theorems are about the Lean model of x/stream (types/utils.go arith
             "Six genuine defects found here were repaired by fix: commits (see KNOWN_FINDINGS.txt); their witnesses stay in the corpus.")
 
 PROPS = {
+    "C16": {
+        "chain": [chain("gov", 24, 25, 300, 40), chain("all", 16, 25, 200, 40)],
+        "pure": [{"kinds": ["entparams", "regparams", "strparams"], Q: 1500, T: 100000}],
+        "corpus": ["witness"],
+        "relevant": rel_kinds(("I", "K", "B", "E", "D ent.params", "D wrk.params", "D bcn.params", "D str.params"), lambda k: k.endswith(".params")),
+        "level_text": "Proof: c16_params_always_valid (the stored parameters of all four modules satisfy the validity rules written from the statement in every state of every run), c16_*_validate_sound (the code's Validate implies the rules), c16_invalid_update_rejected (an update is stored only if the whole set validates and the authority is the gov module), c16_new_values_used (every use reads the state).",
+        "level_note": "Theorems are about the Lean model; Params.Validate of all four modules is compared with the model's validate on boundary-heavy generated parameter structures (vpure) and parameter changes go through real governance in the chain engine, every run. The int(MinAccepts) defect was repaired by a fix: commit; its witness stays in the corpus.",
+        "assumptions": ["genesis parameters valid (InitGenesis would not start otherwise)"],
+    },
     "C10": {
         "chain": [chain("stream", 24, 25, 300, 40), chain("all", 16, 25, 200, 40), chain("gov", 8, 20, 100, 30)],
         "corpus": ["witness"],
